@@ -1740,7 +1740,7 @@ Qed.
 Lemma refill_ok_sound size evs final : refill_ok size evs final = true ->
   map conn_shard (concat (rf_conns (pool_run size evs))) = final.
 Proof.
-  unfold refill_ok. intros H. apply andb_true_iff in H. destruct H as [H1 _]. now apply list_eqb_spec.
+  unfold refill_ok. intros H. now apply list_eqb_spec.
 Qed.
 
 (* no usable owner in the SPECIFICATION's sense => the model has no replica candidate (so
